@@ -71,4 +71,44 @@ example : Returns (fun fuel => runL exE (Op.run exE exFetchB 1) (ops [(3, 1)] [(
     (Op.run exE exFetchB 2 0 exS 0) :=
   between_returns_of_run exE exFetchB 1 0 3 1 0 exS 0 rfl (ne_fuel_of_notFuel (by decide))
 
+section DecodedRun
+open JanetModel.Gen.Peg
+
+/-- RULE_BETWEEN on the RAW bytecode inside a whole run of the decoded program: the only hypotheses are the opcode word at `pc`
+    and that the whole run at `pc` did not answer `Err.fuel`; then the extracted C case on the raw words of the instruction
+    returns (fuel-free) exactly what the run answered. -/
+theorem decoded_between_of_run (E : Env) (P : Program) (pc f : Nat) (s : St) (pos : Nat)
+    (hpc : pc < P.bytecode.size) (hop : P.word pc = RULE_BETWEEN)
+    (hne : Op.run E (decode P) (f + 1) pc s pos ≠ .error .fuel) :
+    Returns (fun fuel => runL E (Op.run E (decode P) f) (rawOps P pc 4) fuel Gen.PegSkel.RULE_BETWEEN s pos)
+      (Op.run E (decode P) (f + 1) pc s pos) := by
+  have hdec : decode P pc = some (.between (P.word (pc + 1)) (P.word (pc + 2)) (P.word (pc + 3))) := by decode_tac hpc hop
+  have hrun : Op.run E (decode P) (f + 1) pc s pos =
+      Op.step E (Op.run E (decode P) f) (f + 1) (.between (P.word (pc + 1)) (P.word (pc + 2)) (P.word (pc + 3))) s pos := by
+    rw [Op.run, hdec]
+  rw [hrun] at hne ⊢
+  obtain ⟨i, hi, hr⟩ := decoded_between E (Op.run E (decode P) f) (f + 1) P pc s pos hpc hop (fun s0 hd hbad => hne (by
+    simp only [Op.step, hd, hbad, bind, Except.bind]))
+  rw [hdec] at hi
+  cases hi
+  exact hr
+
+/-- RULE_SPLIT on the RAW bytecode inside a whole run -/
+theorem decoded_split_of_run (E : Env) (P : Program) (pc f : Nat) (s : St) (pos : Nat)
+    (hpc : pc < P.bytecode.size) (hop : P.word pc = RULE_SPLIT)
+    (hne : Op.run E (decode P) (f + 1) pc s pos ≠ .error .fuel) :
+    Returns (fun fuel => runL E (Op.run E (decode P) f) (rawOps P pc 3) fuel Gen.PegSkel.RULE_SPLIT s pos)
+      (Op.run E (decode P) (f + 1) pc s pos) := by
+  have hdec : decode P pc = some (.split (P.word (pc + 1)) (P.word (pc + 2))) := by decode_tac hpc hop
+  have hrun : Op.run E (decode P) (f + 1) pc s pos =
+      Op.step E (Op.run E (decode P) f) (f + 1) (.split (P.word (pc + 1)) (P.word (pc + 2))) s pos := by
+    rw [Op.run, hdec]
+  rw [hrun] at hne ⊢
+  obtain ⟨i, hi, hr⟩ := decoded_split E (Op.run E (decode P) f) (f + 1) P pc s pos hpc hop hne
+  rw [hdec] at hi
+  cases hi
+  exact hr
+
+end DecodedRun
+
 end JanetModel.Peg.TieSkel
